@@ -20,7 +20,7 @@ def handle : List Sexp → Sexp
   -- (tree completion g t r) -> (valid closed prefix)
   | [.atom "completion", g, t, r] =>
     match decodeGrammar g, decodeTree t, decodeTree r with
-    | some g, some t, some r => .list [ofBool (r.valid g), ofBool r.closed, ofBool (idPrefixOf t r), ofBool (completionCheck g t r)]
+    | some g, some t, some r => .list [ofBool (r.valid g), ofBool r.closed, ofBool (embedsAt t r), ofBool (completionCheck g t r)]
     | _, _, _ => bad
   -- (tree mutation g t r) -> (valid closed same-root)
   | [.atom "mutation", g, t, r] =>
